@@ -73,7 +73,21 @@ def main():
         print("MACHINERY-FAILURE %s: %s" % (a.pid, " | ".join(msg.splitlines()[-3:])[:600]))
         return 2
     except Exception:
-        traceback.print_exc()
+        tb = traceback.format_exc()
+        # an exception raised INSIDE the library (below the last harness frame) on an input the check considers legal is a verdict about the
+        # library, not a failure of the machinery: the statement promises a result for every such input
+        import re
+
+        # an exception from a pool worker arrives as a remote traceback followed by the parent's own frames: the original one comes first
+        first = re.split(r"The above exception was the direct cause|During handling of the above exception", tb)[0]
+        files = re.findall(r'File "([^"]+)", line (\d+), in (\S+)', first)
+        last_h = max([i for i, f in enumerate(files) if "/harness/" in f[0]] or [-1])
+        lib = [f for f in files[last_h + 1:] if "/perception_eval/perception_eval/" in f[0]]
+        if lib:
+            where = "%s:%s" % (os.path.basename(lib[-1][0]), lib[-1][2])
+            ctx.violation("raised-in-library:" + where, "the library raised on an input of the check: %s" % tb.strip().splitlines()[-1][:300], {"traceback": tb[-6000:]})
+            return ctx.finish()
+        print(tb)
         print("MACHINERY-FAILURE %s (harness exception)" % a.pid)
         return 2
     return ctx.finish()
